@@ -199,6 +199,8 @@ def d4(cx: Cx, ob: Ob) -> None:
             continue
         if callee_name(rec) != "pop":
             continue
+        if p.out is not None and p.out[0] == "raise":
+            continue  # the whole call fails: there is no result for the record to be missing from
         appended = [ev for ev in p.events if ev.kind == "expr" and op(ev.a) == "call" and callee_name(ev.a) == "append" and ev.a[2][:1] == (rec,) and ev.line >= bev.line]
         ob.site(f"{where(fn, bev.line)} {fn.qualname}", "pop -> append on path [" + " -> ".join(("" if g.b else "not ") + show(g.a)[:40] for g in p.events if g.kind == "guard")[-90:] + "]")
         if not appended:
